@@ -150,7 +150,7 @@ func (e *ExprShuffleVector) Type() types.Type {
 		if !ok {
 			panic(fmt.Errorf("invalid vector type; expected *types.VectorType, got %T", e.Mask.Type()))
 		}
-		e.Typ = types.NewVector(maskType.Len, xType.ElemType)
+		e.Typ = &types.VectorType{Scalable: maskType.Scalable, Len: maskType.Len, ElemType: xType.ElemType}
 	}
 	return e.Typ
 }
